@@ -316,7 +316,8 @@ class SchemaBuilder(
                 additional_properties = self._properties_schema(
                     self._object_schema(cls, field)
                 )
-        alias_by_names = {f.name: f.alias for f in fields}.__getitem__
+        # AliasedStr in order to be aliased by the aliaser, as properties/required
+        alias_by_names = {f.name: AliasedStr(f.alias) for f in fields}.__getitem__
         dependent_required = get_dependent_required(cls)
         result = []
         if discriminator_parent := get_discriminated_parent(cls):
